@@ -44,29 +44,33 @@ struct SSV : SSVectorBase<double> { SSV(int n, std::shared_ptr<Tolerances> t) : 
 struct SSVQ : SSVectorRational { explicit SSVQ(int n) : SSVectorRational(n) { reDim(n); } };
 static std::string ssJson(const SSVectorBase<double>& v) { return jarr(v.dim(), [&](int i) { return jq(qdraw(v[i])); }); }
 
+static bool g_forceStress = false;
 static void runReal(Rng& g, int len)
 {
    T().line("{\"a\":\"Reset\"}");
    auto tol = std::make_shared<Tolerances>();
    SLUFactor<double> lu; lu.setTolerances(tol);
    int n = g.R(1, (int)envl("VERIF_LU_MAXDIM", 8));
-   int utype = g.R(0, 1); lu.setUtype(utype ? SLUFactor<double>::FOREST_TOMLIN : SLUFactor<double>::ETA);
+   // stress executions: long sequences of dense column replacements without refactorization (fills U's row/column files)
+   bool stress = g_forceStress ? true : g.coin(1, 4); int lastIdx = 0; if(stress) n = std::max(n, (int)envl("VERIF_LU_MAXDIM", 8) + 2);
+   int utype = stress ? (g.coin(3, 4) ? 1 : 0) : g.R(0, 1); lu.setUtype(utype ? SLUFactor<double>::FOREST_TOMLIN : SLUFactor<double>::ETA);
    static const double mk[] = {1e-4, 0.01, 0.1, 0.9999}; double markowitz = mk[g.R(0, 3)]; lu.setMarkowitz(markowitz);
    std::vector<int> domRow; Mat M; bool loaded = false; int updates = 0;
    std::vector<DSVectorBase<double>> cols;
    auto doLoad = [&]()
    {
-      int kind = g.R(0, 5); M = genNonsingular(g, n, kind, domRow);
-      bool singular = g.coin(1, 6); if(singular) makeSingular(g, M, g.R(0, 3));
+      int kind = stress ? g.R(0, 1) : g.R(0, 5); M = genNonsingular(g, n, kind, domRow);
+      bool singular = !stress && g.coin(1, 6); int singHow = -1; if(singular) { singHow = g.R(0, 3); makeSingular(g, M, singHow); }
       cols.assign(n, DSVectorBase<double>()); std::vector<const SVectorBase<double>*> ptr(n);
       for(int j = 0; j < n; j++) { cols[j].clear(); for(int i = 0; i < n; i++) if(M[j][i] != 0) cols[j].add(i, M[j][i]); ptr[j] = &cols[j]; }
       pending() = "load";
       int st = (int)lu.load(ptr.data(), n);
-      J ev; ev.s("a", "load").i("n", n).i("utype", utype).q("markowitz", markowitz).i("kind", kind).b("madeSingular", singular).raw("cols", colsJson(M)).i("status", st);
+      J ev; ev.s("a", "load").i("n", n).i("utype", utype).q("markowitz", markowitz).i("kind", kind).b("madeSingular", singular).i("singHow", singHow).raw("cols", colsJson(M)).i("status", st);
       T().line(ev.str());
       loaded = st == 0; updates = 0;
    };
    doLoad();
+   if(stress) len *= 3;
    for(int step = 0; step < len; step++)
    {
       if(!loaded) { doLoad(); continue; }
@@ -94,11 +98,11 @@ static void runReal(Rng& g, int len)
          J ev; ev.s("a", "solveMulti").s("side", "left").i("k", three ? 3 : 2).raw("b", vecJson(b)).raw("x", ssJson(x)).raw("b2", vecJson(b2)).raw("y", vecJson(y))
             .raw("b3", three ? vecJson(b3) : "[]").raw("z", three ? vecJson(z) : "[]"); T().line(ev.str());
       }
-      else if(k < 90 && updates < 2 * n + 4)
+      else if((k < 90 || stress) && updates < (stress ? 120 : 2 * n + 4))
       {
          // column replacement with the simplex protocol: solveRight4update(new column) [+ other solves] + change
-         int idx = g.R(0, n - 1); std::vector<double> nc(n, 0.0); double off = 0; int r = domRow[idx];
-         for(int i = 0; i < n; i++) if(i != r && g.coin(1, 3)) { double v; do v = g.R(-3, 3); while(v == 0); nc[i] = v; off += std::fabs(v); }
+         int idx = (stress && g.coin()) ? lastIdx : g.R(0, n - 1); lastIdx = idx; std::vector<double> nc(n, 0.0); double off = 0; int r = domRow[idx];
+         for(int i = 0; i < n; i++) if(i != r && (stress ? g.coin(3, 4) : g.coin(1, 3))) { double v; do v = g.R(-3, 3); while(v == 0); nc[i] = v; off += std::fabs(v); }
          nc[r] = (off + g.R(1, 3)) * (g.coin() ? 1 : -1);
          DSVectorBase<double> ncs(n); for(int i = 0; i < n; i++) if(nc[i] != 0) ncs.add(i, nc[i]);
          int proto = g.R(0, 8);
@@ -194,7 +198,7 @@ int main(int argc, char** argv)
          T().f = fopen(argv[5], "a"); if(!T().f) _exit(2); if(nofork) setvbuf(T().f, nullptr, _IOLBF, 0);
          if(!nofork) installCrashHandlers();
          Rng g(seed * 1000003UL + (unsigned long)e);
-         if(wl == "real") runReal(g, len); else runRational(g, len);
+         if(wl == "real") runReal(g, len); else if(wl == "stress") { g_forceStress = true; runReal(g, len); } else runRational(g, len);
          T().close(); if(!nofork) _exit(0);
       }
       else if(pid > 0) { int status = 0; waitpid(pid, &status, 0);
